@@ -10,9 +10,32 @@ func genC12(r *rng, thorough bool) {
 		n = 4000
 	}
 	fl := []string{"a", "b", "a,b", "b,a", "x", "nosuch", "a,nosuch", "c,a,b", "a,a", "y,x,c,b,a", "b,b,a"}
+	// pad: the same records with twelve bystander fields appended - from 12 fields on a record keeps a key
+	// index, which every verb that moves, renames or removes fields has to maintain
+	pad := func(rs []record) []record {
+		var out []record
+		for _, rec := range rs {
+			q := append(record{}, rec...)
+			for k := 1; k <= 12; k++ {
+				q = append(q, field{"pad" + strconv.Itoa(k), strconv.Itoa(k)})
+			}
+			out = append(out, q)
+		}
+		return out
+	}
 	emit := func(argv []string, rs []record) {
 		gen("verbs " + joinFlags(argv) + " " + encodeRecords(rs))
 		gen("verbsx " + joinFlags(argv) + " " + encodeRecords(rs))
+		if r.chance(1, 3) {
+			// ... followed, in the same chain, by a stage that finds the fields by name
+			w := pad(rs)
+			gen("verbs " + joinFlags(argv) + " " + encodeRecords(w))
+			if argv[0] == "sort-within-records" {
+				return // its -r flag is parsed differently by the model's and the real chain parser when a `then` follows
+			}
+			gen("verbs " + joinFlags(append(append([]string{}, argv...), "then", "cut", "-x", "-f", "a,pad3")) + " " + encodeRecords(w))
+			gen("verbs " + joinFlags(append(append([]string{}, argv...), "then", "cut", "-o", "-f", "pad12,b,a,x")) + " " + encodeRecords(w))
+		}
 	}
 	for i := 0; i < n; i++ {
 		rs := verbStream(r, 8)
